@@ -330,6 +330,7 @@ func (e *emitter) emit(c, out string) {
 	e.impl.WriteString(out)
 	e.impl.WriteByte('\n')
 	e.n++
+	progress.Add(1)
 }
 
 // ---------------------------------------------------------------- suite lex
